@@ -13,6 +13,7 @@ def values(tier):
         yield ('strc', s), (lambda s=s: dict(U.place_string(s))['composite']), 'str'
     for s in U.strings(U.STR_CORE, 2, 2) if q else U.strings(U.STR_CORE, 3, 3):
         yield ('str', s), (lambda s=s: s), 'str'
+        yield ('strc', s), (lambda s=s: dict(U.place_string(s))['composite']), 'str'
     for s in U.lookalikes()[::4 if q else 1]:
         yield ('look', s), (lambda s=s: [s, {s: s}]), 'str'
     for s in U.fold_words(3 if q else 4):
